@@ -61,10 +61,29 @@ impl LspProject {
             // a difference, and the start character as a difference when on the same line.
             let mut prev_line: u32 = 0;
             let mut prev_start: u32 = 0;
+            // Tokens have their column and length in bytes but the protocol counts
+            // in UTF-16 code units, so measure the text before the token on its
+            // line and the text of the token.
+            let contents = match self.wrapped.find(&file_id) {
+                Some(src) => src.as_string(),
+                None => return Err(vec![]),
+            };
             return Ok(result
                 .0
                 .into_iter()
-                .filter_map(|tok| LspTokenType(tok).into())
+                .filter_map(|tok| {
+                    let line_start = tok.span.start.saturating_sub(tok.col);
+                    let start = contents
+                        .get(line_start..tok.span.start)
+                        .map_or(0, |before| before.encode_utf16().count());
+                    let length = tok.text.encode_utf16().count();
+                    let semantic_token: Option<SemanticToken> = LspTokenType(tok).into();
+                    semantic_token.map(|semantic_token| SemanticToken {
+                        delta_start: start as u32,
+                        length: length as u32,
+                        ..semantic_token
+                    })
+                })
                 .map(|tok: SemanticToken| {
                     let line = tok.delta_line;
                     let start = tok.delta_start;
